@@ -767,8 +767,8 @@ class Session:
             dp = e[1]
             if dp["zlp"] and H["zlp_flag"]:
                 self.zlp_repeated(dp)
-            if not H["in_sync"] and dp.get("data") is not None and dp["data"] == H["prev_data"]:
-                self.res.unjudged += 1
+            if not H["in_sync"]:
+                self.res.unjudged += 1      # the endpoint takes the acknowledgement for a retry: consequence of an already reported loss of sync
                 raise GiveUp()
             self.violation("data_packet_without_request", "packet at cycles %d..%d, %s bytes" % (dp["start"], dp["end"], len(dp["data"]) if dp.get("data") is not None else "?"))
             raise GiveUp()
